@@ -66,6 +66,12 @@ def check_hcflag_mpo(prog, rep):
                                     'structure_only': STRUCTURE_ONLY.get(n)})
         if n in handles or n in STRUCTURE_ONLY:
             continue
+        if n.startswith('_') and not n.startswith('__'):
+            # a private helper is a part of the methods that call it: decided with its callers
+            callers = [c_ for c_, g in meths.items() if c_ != n and any(
+                nm == n for _, nm, _c in self_method_calls(g))]
+            if callers and all(c_ in handles or c_ in STRUCTURE_ONLY for c_ in callers):
+                continue
         rep.violation('HCFLAG-mpo', m, 'MPO.' + n, 'flag-ignored:' + n,
                       'MPO.%s works with the W tensors as an operator but neither consults '
                       '`explicit_plus_hc` nor delegates to a method that does: for an MPO that '
